@@ -112,6 +112,9 @@ func Run(c *core.Ctx) {
 	c.Oblige("correspondence", "the Go code generated from every accepted generated template compiles (go build)", compileOK, "")
 	c.Oblige("correspondence", "compiled generated code renders exactly the denotation (bytes, error, error position) on every (template, arguments) case", renderOK, "")
 	c.Extra["render_cases"] = cases
+
+	// (iii) the proof layer's fragment, tied to the generator text and to the compiled code
+	fragment(c)
 	c.Sample(map[string]any{"note": "a rendered case", "args": randArgs(c.Rng)})
 }
 
